@@ -96,29 +96,36 @@ impl Backend {
         &self.store
     }
 
-    /// Every record physically present: (id, deadline - now) rounded up to `q` ms, in ms.
-    async fn dump(&self, q: i128) -> Vec<(u64, i128)> {
-        let mut v: Vec<(u64, i128)> = match &self.raw {
-            Raw::Mem(s) => s
-                .verif_dump()
-                .await
-                .into_iter()
-                .map(|(id, ns)| (unsid(&id), ceil_div(ns, q * 1_000_000) * q))
-                .collect(),
+    /// Every record physically present: (id, deadline - now rounded up to `q` ms [in ms], state).
+    async fn dump(&self, cx: &Ctx) -> Vec<(u64, i128, Json)> {
+        let q = cx.q;
+        let mut v: Vec<(u64, i128, Json)> = Vec::new();
+        match &self.raw {
+            Raw::Mem(s) => {
+                for (id, ns) in s.verif_dump().await {
+                    let st = match s.verif_state(&id).await {
+                        Some(st) => cx.state_idx(&st),
+                        None => Json::Null,
+                    };
+                    v.push((unsid(&id), ceil_div(ns, q * 1_000_000) * q, st));
+                }
+            }
             Raw::Sqlite(pool) => {
                 let now_s = (real_ms() / 1000) as i128;
-                let rows = sqlx::query("SELECT id, deadline FROM sessions").fetch_all(pool).await.unwrap();
-                rows.iter()
-                    .map(|r| {
-                        let id: String = r.get(0);
-                        let d: i64 = r.get(1);
-                        let id = u64::from_str_radix(&id[24..], 16).unwrap_or(u64::MAX);
-                        (id, (d as i128 - now_s) * 1000)
-                    })
-                    .collect()
+                let rows = sqlx::query("SELECT id, deadline, state FROM sessions").fetch_all(pool).await.unwrap();
+                for r in rows.iter() {
+                    let id: String = r.get(0);
+                    let d: i64 = r.get(1);
+                    let st = match r.try_get::<serde_json::Value, _>(2).ok().and_then(|v| serde_json::from_value::<State>(v).ok()) {
+                        Some(st) => cx.state_idx(&st),
+                        None => json!({"undecodable": true}),
+                    };
+                    let id = u64::from_str_radix(&id[24..], 16).unwrap_or(u64::MAX);
+                    v.push((id, (d as i128 - now_s) * 1000, st));
+                }
             }
         };
-        v.sort();
+        v.sort_by_key(|x| x.0);
         v
     }
 
@@ -280,8 +287,8 @@ fn ctx_of(req: &Json) -> Result<Ctx, String> {
     Ok(Ctx { states, q })
 }
 
-fn dump_json(d: &[(u64, i128)]) -> Json {
-    Json::Array(d.iter().map(|(i, t)| json!([i, *t as i64])).collect())
+fn dump_json(d: &[(u64, i128, Json)]) -> Json {
+    Json::Array(d.iter().map(|(i, t, s)| json!([i, *t as i64, s])).collect())
 }
 
 /// One sequential op, including `advance` and the before/after dump around `delete_expired`.
@@ -299,12 +306,12 @@ async fn seq_op(b: &Backend, cx: &Ctx, op: &[Json], real: Option<(tokio::time::I
         return json!("adv");
     }
     if name == "delete_expired" {
-        let before = b.dump(cx.q).await;
+        let before = b.dump(cx).await;
         let mut r = apply(b, cx, op).await;
-        let after = b.dump(cx.q).await;
+        let after = b.dump(cx).await;
         if let Some(o) = r.as_object_mut() {
             let removed: Vec<u64> =
-                before.iter().filter(|(i, _)| !after.iter().any(|(j, _)| j == i)).map(|(i, _)| *i).collect();
+                before.iter().filter(|x| !after.iter().any(|y| y.0 == x.0)).map(|x| x.0).collect();
             o.insert("removed".into(), json!(removed));
         }
         return r;
@@ -350,7 +357,7 @@ async fn run_seq(req: &Json) -> Json {
                 late = true;
             }
         }
-        let fin = b.dump(cx.q).await;
+        let fin = b.dump(&cx).await;
         let end_ms = real_ms();
         b.close().await;
         let unreliable = if real {
@@ -434,7 +441,7 @@ async fn run_conc(req: &Json, file_dir: Option<&str>) -> Json {
         for op in &post {
             post_res.push(seq_op(&b, &cx, op, None).await);
         }
-        let fin = b.dump(cx.q).await;
+        let fin = b.dump(&cx).await;
         let end_ms = real_ms();
         b.close().await;
         if start_ms / 1000 != end_ms / 1000 {
